@@ -6,19 +6,20 @@ Import ListNotations.
 Open Scope list_scope.
 Open Scope Z_scope.
 
-(** the trace of a run that decodes [items]: each primitive's bytes directly followed by its event *)
+(** the trace of a run that decodes [items]: each primitive's bytes directly followed by its event (and, in warn
+    mode, by the warning if its value is out of range) *)
 Inductive shape : list action -> list item -> Prop :=
 | sh_nil : shape [] []
 | sh_node pa t tr r : shape tr r -> shape (Ev (item_event (INode pa t)) :: tr) (INode pa t :: r)
 | sh_prim pa p z bs tr r : List.length bs = Z.to_nat (pwidth p) -> 0 <= pwidth p -> shape tr r ->
-    shape (map Rd bs ++ Ev (item_event (IPrim pa p z)) :: tr) (IPrim pa p z :: r).
+    shape (map Rd bs ++ Ev (item_event (IPrim pa p z)) :: vwarn pa p z ++ tr) (IPrim pa p z :: r).
 
 Lemma shape_app t1 i1 t2 i2 : shape t1 i1 -> shape t2 i2 -> shape (t1 ++ t2) (i1 ++ i2).
 Proof.
   induction 1 as [|pa t tr r H IH|pa p z bs tr r L Hw H IH]; intros H2; cbn [app].
   - exact H2.
   - constructor. apply IH, H2.
-  - rewrite <- app_assoc. cbn [app]. constructor; [exact L|exact Hw|apply IH, H2].
+  - rewrite <- app_assoc. cbn [app]. rewrite <- app_assoc. constructor; [exact L|exact Hw|apply IH, H2].
 Qed.
 
 Definition blen (l : list Z) : Z := Z.of_nat (List.length l).
